@@ -4,6 +4,7 @@ use std::fmt::Write;
 
 pub fn install_hooks() {
     ascent::verif::set_scheduler_hooks(vsched::point, vsched::mutex_acquire, vsched::mutex_release);
+    ascent::verif::set_rwlock_hooks(vsched::rw_acquire, vsched::rw_release);
 }
 
 pub fn jstr(s: &str) -> String {
